@@ -29,6 +29,8 @@ def run_unit(spec, tier):
         r = units.run_verus(spec['unit'])
     elif kind == 'bx':
         r = units.run_bx(spec['name'], spec['strategy'], spec.get('bounds') or BX_BOUNDS[tier], tier)
+    elif kind == 'bxc':
+        r = units.run_bx_convert(spec['name'], 9 if tier == 'thorough' else 7)
     elif kind == 'bxh':
         r = units.run_bx_history(spec['name'], 8 if tier == 'thorough' else 6)
     elif kind == 'kani':
@@ -121,6 +123,13 @@ def make_replay(pid, spec, r, f, tier):
     os.makedirs(d, exist_ok=True)
     stamp = time.strftime('%Y%m%d-%H%M%S')
     base = os.path.join(d, '%s-%s-%s-%d' % (pid, r.name, stamp, len(os.listdir(d))))
+    if f.get('convert_case') is not None:
+        path = base + '.json'
+        json.dump({'kind': 'bx-convert', 'property': pid, 'history': f['convert_case']['history'], 'target': f['convert_case']['target'],
+                   'clauses': f['clauses'], 'unit': r.name,
+                   'how': './check --replay <this file>: rebuilds the source definition from the request sequence and replays it through convert_record_definition'},
+                  open(path, 'w'), indent=1)
+        return path, True
     if f.get('history') is not None:
         path = base + '.json'
         json.dump({'kind': 'bx-builder', 'property': pid, 'history': f['history'], 'clauses': f['clauses'], 'unit': r.name,
@@ -324,6 +333,16 @@ PROPERTIES['C07'] = {
     'level': 'model_checking', 'units': lambda tier: [GK, K_DATA, CALLSITES], 'all_harnesses_count_for': ['C07'],
     'explanation': 'In-capacity / typed / not-moved-out: CBMC pointer checks on every corpus harness. Alignment: contract of read/write/get/get_mut checked with the record placed at a symbolic slot of an aligned arena and ptr::read/write replaced by alignment-asserting wrappers; probes on a bare (align 1) buffer decide which primitives require an aligned receiver; every call site of the emitted modules is classified by receiver (bare local vs field of the repr(align) record).',
     'unchecked': ['stack placement of locals is not observable in CBMC (every object is aligned): the bare-buffer clause is decided by probe + call-site classification, which is type-directed'],
+}
+PROPERTIES['C20'] = {
+    'level': 'model_checking', 'units': lambda tier: [{'kind': 'bxc', 'name': 'convert-standin'}],
+    'explanation': 'convert_record_definition cannot be brought within reach of either verifier (closure parameters over a caller-chosen context, impl-Iterator returns, '
+                   'retain with closures, two BTreeMaps: Verus rejects it; two Kani probes of 10 and 7 minutes did not terminate). As the brief allows for such a function, a '
+                   'bounded check stands in: the real helper is executed natively on every source definition within the stated bound, replayed into a native builder under '
+                   'two strategies and into a generic builder, against its postcondition (one target variant per source variant, the map pairs them injectively, paired '
+                   'variants hold data with the same names and type information, every source datum corresponds to one target datum across all the variants it spans). '
+                   'BOUNDED, never counted as proved.',
+    'unchecked': ['source definitions beyond the bound (longer histories, other shapes, append strategies as source strategies)', 'no deductive obligation is generated for this property'],
 }
 PROPERTIES['C15'] = {
     'level': 'model_checking', 'units': lambda tier: [GK],
